@@ -739,3 +739,50 @@ package main
 //@   props C06
 //@   panics iff len(ps.offsideCol) == 0
 //@   returns ps.tkz.col < ps.offsideCol[len(ps.offsideCol) - 1] || ps.tkz.current.ttype == New_TokenType_EOF || ps.tkz.current.ttype == New_TokenType_RPAREN
+
+// ---------------------------------------------------------------------------------------------
+// C11: emission of string literals and interpolated strings.
+// ---------------------------------------------------------------------------------------------
+
+//@ func sinterpToGo
+//@   props C11
+//@   ghost F string              -- the format ParseSInterP returned for s
+//@   ghost V []string            -- the variable names it returned, in order
+//@   panics may
+//@   ensures text: result == "frt.SInterP(\"" + F + "\", " + join_prefix(V, ", ", len(V)) + ")"
+//@   at after call frt.Destr2#0: F = ret
+//@   at after call strings.Concat#0: V = vs
+
+//@ func faToGo
+//@   trusted
+//@   panics may
+//@ func sliceToGo
+//@   trusted
+//@   panics may
+//@ func tupleToGo
+//@   trusted
+//@   panics may
+//@ func lambdaToGo
+//@   trusted
+//@   panics may
+//@ func rgToGo
+//@   trusted
+//@   panics may
+//@ func reToGo
+//@   trusted
+//@   panics may
+//@ func fcToGo
+//@   trusted
+//@   panics may
+//@ func lbToGo
+//@   trusted
+//@   panics may
+
+// the literal arms of the expression emitter (the other arms are abstract here)
+//@ func ExprToGo
+//@   props C11
+//@   panics may
+//@   ensures string-literal: is(Expr_EStringLiteral, expr) ==> result == "\"" + Expr_EStringLiteral_Value(expr) + "\""
+//@   ensures int-literal: is(Expr_EIntImm, expr) ==> result == fmtverb("d", Expr_EIntImm_Value(expr))
+//@   ensures unit: is(Expr_EUnit, expr) ==> result == ""
+//@   ensures sinterp: is(Expr_ESInterP, expr) ==> prefixof("frt.SInterP(\"", result) && suffixof(")", result)
